@@ -360,7 +360,7 @@ class PathTracer:
 
         o = self._g.position.resolve()
         t = self._g.to_absolute(target)
-        center = Point((t.x - o.x) / 2 - o.x, (t.y - o.y) / 2 - o.y)
+        center = Point((t.x - o.x) / 2, (t.y - o.y) / 2)
         turns = max(1, int(abs(t.z - o.z) / pitch))
 
         self.helix(target, center, turns, **kwargs)
